@@ -409,6 +409,10 @@ func runEngineCase(a *eApp, c *eCfg, persisted bool, inputs [][]byte) ([]eStep, 
 		var out []byte
 		if persisted {
 			pe := persist.NewPersister(store)
+			if len(a.Code)%2 == 0 {
+				// the optional flush-after-save: the persister's own State/Memory are emptied by every Save
+				pe = pe.WithFlush()
+			}
 			e := mk().WithPersister(pe)
 			s.Cont, s.Exec, out, s.Flush, pv = doRequest(e, in, true)
 			pe2 := persist.NewPersister(store).WithContent(state.NewState(c.FlagCount), cache.NewCache())
@@ -865,7 +869,7 @@ func genHistory(r *rand.Rand, sels []string, n int) [][]byte {
 		case k < 83:
 			in = ""
 		case k < 90:
-			in = pick(r, []string{"zz", "q", "+1", "7 7", "abc'def"})
+			in = pick(r, []string{"zz", "q", "+1", "7 7", "abc'def", "50%", "100%d", "7%%s"})
 		case k < 97:
 			in = pick(r, []string{"!bad", " 1", "-", "\x00", "\n1", "é", "1\n", "1\n2", "+254\n1", "a\nb", " ", "\t", "\n", "\r\n", "  "})
 		default:
@@ -1012,6 +1016,12 @@ var engineCorpus = []corpusCase{
 	{name: "reserved-tamper", nodes: [][3]string{{"root", "LOAD aa 0; HALT; INCMP foo 1; INCMP bar 2", "root"}, {"foo", "LOAD bb 0; MAP bb; HALT; INCMP _ 0", "foo {{.bb}}"}, {"bar", "LOAD cc 0; HALT; INCMP _ 0", "bar"}, {"_catch", "HALT; INCMP _ *", "catch"}},
 		fn:  map[string][]eFres{"aa": []eFres{{Content: "a", Set: []uint32{0, 1, 2, 3, 4, 5, 8}}}, "bb": []eFres{{Content: "b", Reset: []uint32{0, 1, 2, 3, 4, 5}}}, "cc": []eFres{{Content: "c", Set: []uint32{5, 3}, Reset: []uint32{4, 1, 8}}}},
 		cfg: eCfg{FlagCount: 2}, inputs: []string{"", "1", "0", "2", "x", "0"}},
+	{name: "percent-input", nodes: [][3]string{{"root", "HALT; INCMP foo 1", "root"}, {"foo", "HALT; INCMP _ 0", "foo"}, {"_catch", "MOUT back 0; HALT; INCMP _ 0", "catch"}},
+		cfg: eCfg{FlagCount: 1}, inputs: []string{"", "50%", "0", "100%d", "0", "7%%"}},
+	{name: "two-sinks", nodes: [][3]string{{"root", "HALT; INCMP foo 1; INCMP bar 2", "root"}, {"foo", "LOAD aa 0; MAP aa; MNEXT nxt 11; MPREV prv 22; HALT; INCMP > 11; INCMP < 22; INCMP _ 0", "foo {{.aa}}"}, {"bar", "LOAD bb 0; MAP bb; HALT; INCMP _ 0", "bar {{.bb}}"}, {"_catch", "HALT; INCMP _ *", "catch"}},
+		fn: map[string][]eFres{"aa": st1("apple\npear\nplum\nfig\nlime"), "bb": st1("oak\nelm")}, cfg: eCfg{FlagCount: 1, Out: 32}, inputs: []string{"", "1", "11", "0", "2", "0", "1"}},
+	{name: "croak-while-reading", nodes: [][3]string{{"root", "LOAD aa 0; HALT; INCMP one 1; CROAK 8 1; INCMP two 2", "root"}, {"one", "HALT; INCMP _ 0", "one"}, {"two", "HALT; INCMP _ 0", "two"}, {"_catch", "MOUT back 0; HALT; INCMP _ 0", "catch"}},
+		fn: map[string][]eFres{"aa": []eFres{{Content: "v", Set: []uint32{8}}}}, cfg: eCfg{FlagCount: 2}, inputs: []string{"", "7", "0", "2"}},
 	{name: "abnormal-end", nodes: [][3]string{{"root", "HALT; INCMP foo 1", "root"}, {"foo", "LOAD aa 10", "foo"}, {"_catch", "HALT; INCMP _ *", "catch"}},
 		fn: map[string][]eFres{"aa": st1("v")}, cfg: eCfg{FlagCount: 2}, inputs: []string{"", "1", "", "1"}},
 	{name: "browse-past-end", nodes: [][3]string{{"root", "LOAD aa 0; MAP aa; MNEXT nxt 11; MPREV prv 22; HALT; INCMP > 11; INCMP < 22", "r {{.aa}}"}, {"_catch", "MOUT back 0; HALT; INCMP _ 0", "catch"}},
